@@ -65,7 +65,9 @@ def run(ctx):
                 "auth_strategy=private-key source}: {default, non-default port} x known_hosts {same key, different key same type, only "
                 "other key types, hashed entry, entry under the other port's name, none} x {Reject, AutoAdd, Warning, "
                 "custom accept, custom refuse}; (b2) system store x user store (load_system_host_keys / load_host_keys: none, same key, "
-                "other types, different key of the same type) x policy; (b5) known RSA key vs presented near-collisions with a usable private half (modulus congruent "
+                "other types, different key of the same type) x policy; (b6) stores loaded from a multi-name line (host,ip / [host]:port,[ip]:port) and edited through the "
+                "API before connect (HostKeys.add, __setitem__, SubDict set, del) x server presents the old / the new key; "
+                "(b5) known RSA key vs presented near-collisions with a usable private half (modulus congruent "
                 "modulo sys.hash_info.modulus = equal Python hash; same modulus with another exponent; unrelated; identical) - "
                 "'same key' is decided by the harness as byte-identical public blob; (b4) unknown host x policies raising each exception class (SSHException, OSError family, "
                 "ValueError, KeyError, Exception, a BaseException subclass); (b3) known_hosts text with @revoked / @cert-authority marker "
@@ -214,6 +216,57 @@ def run(ctx):
                      "outcome %s, server saw %r" % (obs["outcome"], obs["server_saw"]))
         if consulted and obs["policy_called"]:
             ctx.fail("known-host-handed-to-missing-host-key-policy", case, repr(obs["policy_called"]))
+        if G.PASSWORD.encode() in obs["raw"]:
+            ctx.fail("secret-in-plaintext", case, "password in the client's raw output")
+
+    # ---------------- (b6) stores built from multi-name lines and edited through the API before connect
+    oldk, newk = keys["ec"], keys["ec2"]
+
+    def edit(op, name):
+        t = newk.get_name()
+        return {
+            "add": lambda c: c.get_host_keys().add(name, t, newk),
+            "setitem": lambda c: c.get_host_keys().__setitem__(name, {t: newk}),
+            "subdict-set": lambda c: c.get_host_keys().lookup(name).__setitem__(t, newk),
+            "getitem-set": lambda c: c.get_host_keys()[name].__setitem__(t, newk),
+            "del": lambda c: c.get_host_keys().__delitem__(name),
+            "none": lambda c: None,
+        }[op]
+
+    ecases = [(op, pres, port, pol) for op in ("add", "setitem", "subdict-set", "getitem-set", "del", "none")
+              for pres in ("old", "new") for port in (22, 2222) for pol in ("reject", "autoadd")]
+    if not ctx.thorough:
+        ecases = [c for c in ecases if c[3] == "reject" and c[2] == 2222] + rng.sample(
+            [c for c in ecases if not (c[3] == "reject" and c[2] == 2222)], 6)
+    reqs = []
+    for op, pres, port, pol in ecases:
+        current = {"del": None, "none": oldk}.get(op, newk)      # what the documented semantics say is trusted now
+        reqs.append("sconn %s %s %d" % ("none" if current is None else key_tok(current),
+                                        key_tok(oldk if pres == "old" else newk), 1 if pol == "autoadd" else 0))
+    replies = ctx.driver("C17", reqs)
+    for i, (op, pres, port, pol) in enumerate(ecases):
+        name = host if port == 22 else "[%s]:%d" % (host, port)
+        ip = "10.0.0.5" if port == 22 else "[10.0.0.5]:%d" % port
+        line = "%s,%s %s %s\n" % (name, ip, oldk.get_name(), oldk.get_base64())   # as OpenSSH writes with CheckHostIP
+        presented = oldk if pres == "old" else newk
+        current = {"del": None, "none": oldk}.get(op, newk)
+        ep = rng.choice(entries_points)
+        obs = G.run_ssh_client(host, port, [], pol, presented, ep, raw_lines=line, pre_connect=edit(op, name))
+        should_send = (current is not None and presented.asbytes() == current.asbytes()) or (
+            current is None and pol == "autoadd")
+        ctx.case(("store-edit", op, pres, port, pol, ep), True)
+        ctx.dist("store-edit:" + op)
+        case = {"known_hosts_line": line.strip()[:60] + "...", "edit": op, "server_presents": pres + " key",
+                "port": port, "policy": pol, "entry_point": ep}
+        if replies is not None and replies[i] != obs["outcome"]:
+            ctx.disagree("SSHClient.connect decision (edited store)", case, replies[i], obs["outcome"])
+        if not should_send and (obs["server_saw"] or obs["outcome"] == "authenticate"):
+            ctx.fail("credentials-sent-to-server-with-a-replaced-or-removed-key", case,
+                     "after %s the store trusts %s; outcome %s, server saw %r" %
+                     (op, "nothing" if current is None else ("the new key" if current is newk else "the old key"),
+                      obs["outcome"], obs["server_saw"]))
+        if should_send and not obs["server_saw_credential"]:
+            ctx.disagree("harness: accepted server did not receive the credential", case, "credential", obs["outcome"])
         if G.PASSWORD.encode() in obs["raw"]:
             ctx.fail("secret-in-plaintext", case, "password in the client's raw output")
 
